@@ -100,6 +100,13 @@ bool LoadScenario(const js::J& j, Scenario* s, string* err) {
       for (auto& kv : oj["faults"].o) op.cfg.faults[kv.first] = LoadFault(kv.second);
       for (auto& kv : oj["env"].o) op.cfg.env[kv.first] = kv.second.s;
       op.cfg.allow_interrupt = oj["interrupt"].boolean(false);
+      if (!oj["jobserver"].is_null()) {
+        const js::J& jj = oj["jobserver"];
+        op.cfg.js_tokens = (int)jj["tokens"].num(0);
+        op.cfg.js_ext_held = (int)jj["ext_held"].num(0);
+        op.cfg.js_ext_max = (int)jj["ext_max"].num(0);
+        op.cfg.js_moves = (int)jj["moves"].num(0);
+      }
       op.crash = oj["crash"].boolean(false);
       op.expect_error = oj["expect_error"].boolean(false);
       op.canonical_args = oj["canonical_args"].strs();
